@@ -132,13 +132,15 @@ theorem take_lowest (l : List Entry) (hs : Sorted l) (n : Nat) :
 theorem sorted_below (idx : List Entry) (ty : Nat) (K : Int) (h : Sorted idx) : Sorted (below idx ty K) :=
   List.Pairwise.filter _ h
 
-/-- the block liquidator seizes exactly the first `count` index entries of the type below the normalised
-    ratio: they are all gone afterwards, and every entry below the bound that was left comes later in the index -/
+/-- the block liquidator walks exactly the first `count` index entries of the type below the normalised
+    ratio: each of them is gone afterwards unless the value-ratio re-check skipped it (then it is untouched),
+    and every entry below the bound that was not taken comes later in the index -/
 theorem liquidateBlock_complete {E : Env} {g : Int} {s s' : St} {ty : Nat} {cp : CollParam} {price : Dec}
     (hW : WF E) (hI : Inv E g s) (h : liquidateBlock E s ty cp price = .ok s') :
     let K := sortKey (normRatio price cp.liqRatio)
     let sel := takeCount cp.checkCount (below s.idx ty K)
-    (∀ e, e ∈ sel → s'.cdp e.2.2 = none) ∧
+    (∀ e, e ∈ sel → ∃ c, s.cdp e.2.2 = some c ∧
+        (if blockSkips E c price cp.liqRatio = true then s'.cdp e.2.2 = some c else s'.cdp e.2.2 = none)) ∧
     (∀ e, e ∈ sel → ∀ e', e' ∈ below s.idx ty K → e' ∉ sel → eLt e e' = true) ∧
     sel.length = min (if cp.checkCount ≤ 1 then 1 else cp.checkCount.toNat) (below s.idx ty K).length := by
   intro K sel
@@ -150,7 +152,7 @@ theorem liquidateBlock_complete {E : Env} {g : Int} {s s' : St} {ty : Nat} {cp :
   have hnd : (cdps.map Prod.fst).Nodup := by
     rw [hmap]
     exact idx_ids_nodup hI.idx ((takeCount_sublist _ _).trans (below_sublist _ _ _))
-  obtain ⟨-, -, hgone, -⟩ := seizeLoop_inv hW cdps s s' hI hst hnd h
+  obtain ⟨-, -, hgone, -⟩ := seizeLoop_inv hW _ _ cdps s s' hI hst hnd h
   refine ⟨?_, ?_, ?_⟩
   · intro e he
     have : e.2.2 ∈ cdps.map Prod.fst := by
@@ -158,31 +160,134 @@ theorem liquidateBlock_complete {E : Env} {g : Int} {s s' : St} {ty : Nat} {cp :
     obtain ⟨⟨j, c⟩, hm, ej⟩ := List.mem_map.1 this
     dsimp only at ej
     rw [← ej]
-    exact hgone j c hm
+    exact ⟨c, hst j c hm, hgone j c hm⟩
   · intro e he e' he' hne'
     exact take_lowest _ (sorted_below _ _ _ hI.idx.2.2) _ e he e' he' hne'
   · show (List.take _ _).length = _
     rw [List.length_take]
 
-/-! ### a single deposit hands over exactly the debt -/
+/-! ### block liquidation only seizes below the ratio -/
 
-theorem debtCovered_single (v debt : Int) (hv : 0 < v) : debtCovered v v debt = debt := by
+/-- function level: a CDP that passes the re-check of `LiquidateCdps` has `CalculateCollateralizationRatio < L`
+    at the liquidation price -/
+theorem blockSkips_sound (E : Env) (c : Cdp) (price L : Dec) (hL : 0 < L.m)
+    (h : blockSkips E c price L = false) (r : Dec)
+    (hr : collRatio c.coll (cfOf E c.ty) c.prin c.fees E.P.debtCf price = some r) : r.m < L.m := by
+  unfold collRatio at hr
+  split at hr
+  · cases hr; exact hL
+  · dsimp only at hr
+    split at hr
+    · cases hr
+    · rename_i hc0 htot
+      cases hr
+      have hadd : Dec.add (baseUnits c.prin E.P.debtCf) (baseUnits c.fees E.P.debtCf) = baseUnits (c.prin + c.fees) E.P.debtCf := by
+        show (⟨(baseUnits c.prin E.P.debtCf).m + (baseUnits c.fees E.P.debtCf).m⟩ : Dec) = baseUnits (c.prin + c.fees) E.P.debtCf
+        rw [baseUnits_add]
+      rw [hadd] at htot ⊢
+      unfold blockSkips at h
+      dsimp only at h
+      simp only [htot, ite_false, decide_eq_false_iff_not] at h
+      omega
+
+/-- state level: whatever `LiquidateCdps` removes had passed the re-check -/
+theorem liquidateBlock_sound {E : Env} {g : Int} {s s' : St} {ty : Nat} {cp : CollParam} {price : Dec}
+    (hW : WF E) (hI : Inv E g s) (h : liquidateBlock E s ty cp price = .ok s')
+    (id : Nat) (c : Cdp) (ho : s.cdp id = some c) (hgone : s'.cdp id = none) :
+    blockSkips E c price cp.liqRatio = false := by
+  unfold liquidateBlock at h
+  split at h
+  · cases h
+  rename_i cdps hf
+  obtain ⟨hmap, hst⟩ := fetchCdps_spec s _ _ hf
+  have hnd : (cdps.map Prod.fst).Nodup := by
+    rw [hmap]
+    exact idx_ids_nodup hI.idx ((takeCount_sublist _ _).trans (below_sublist _ _ _))
+  obtain ⟨-, -, hg, hoth⟩ := seizeLoop_inv hW _ _ cdps s s' hI hst hnd h
+  by_cases hm : id ∈ cdps.map Prod.fst
+  · obtain ⟨⟨j, c'⟩, hm', ej⟩ := List.mem_map.1 hm
+    dsimp only at ej; subst ej
+    have := hst j c' hm'
+    rw [ho] at this; cases this
+    have hh := hg j c hm'
+    cases hsk : blockSkips E c price cp.liqRatio
+    · rfl
+    · simp only [hsk, ite_true] at hh
+      rw [hgone] at hh; cases hh
+  · rw [hoth id hm, ho] at hgone; cases hgone
+
+/-! ### the debt shares handed to auctions -/
+
+theorem debtCovered_nonneg (v total debt : Int) (hv : 0 ≤ v) (ht : 0 < total) (hd : 0 ≤ debt) :
+    0 ≤ debtCovered v total debt := by
   unfold debtCovered
-  have hvP : 0 < v * P := Int.mul_pos hv P_pos
-  have e1 : Dec.quo (Dec.ofInt v) (Dec.ofInt v) = Dec.one := by
-    simp only [Dec.quo, Dec.ofInt, Dec.one]
-    have hnum : 0 ≤ v * P * P * P := Int.mul_nonneg (Int.mul_nonneg (Int.le_of_lt hvP) (by decide)) (by decide)
-    rw [tquo_nonneg_eq _ _ hnum (Int.le_of_lt hvP)]
-    have : v * P * P * P = (v * P) * (P * P) := by rw [Int.mul_assoc (v * P) P P]
-    rw [this, Int.mul_ediv_cancel_left _ (by omega)]
-    rw [chopRound_mul_P]
-  rw [e1]
-  simp only [Dec.mul, Dec.one, Dec.ofInt, Dec.roundInt]
-  have : P * (debt * P) = (P * debt) * P := by rw [Int.mul_assoc]
-  rw [this, chopRound_mul_P, Int.mul_comm P debt, chopRound_mul_P]
+  have hq : 0 ≤ (Dec.quo (Dec.ofInt v) (Dec.ofInt total)).m := by
+    obtain ⟨T, -, -, -, -, -, h⟩ := quo_spec (Dec.ofInt v) (Dec.ofInt total)
+      (by simp only [Dec.ofInt]; exact Int.mul_nonneg hv (by decide))
+      (by simp only [Dec.ofInt]; exact Int.mul_pos ht P_pos)
+    exact h
+  have hm : 0 ≤ (Dec.quo (Dec.ofInt v) (Dec.ofInt total)).m * (Dec.ofInt debt).m :=
+    Int.mul_nonneg hq (by simp only [Dec.ofInt]; exact Int.mul_nonneg hd (by decide))
+  obtain ⟨-, -, hnn⟩ := mul_spec _ _ hm
+  exact chopRound_nonneg _ hnn
 
-theorem sumCovered_single (a : Acct) (v debt : Int) (hv : 0 < v) : sumCovered v debt [(a, v)] = debt := by
-  simp only [sumCovered, debtCovered_single v debt hv]; omega
+theorem sendB_ok {s : St} {f t : Acct} {d : Denom} {a : Int} (h : a ≤ s.bal f d) : ∃ s', sendB s f t d a = some s' := by
+  unfold sendB
+  split
+  · exact ⟨s, rfl⟩
+  · split
+    · omega
+    · exact ⟨_, rfl⟩
+
+theorem sumDeps_nonneg : ∀ (l : List (Acct × Int)), (∀ a v, (a, v) ∈ l → 0 < v) → 0 ≤ sumDeps l := by
+  intro l
+  induction l with
+  | nil => intro _; simp [sumDeps]
+  | cons hd tl ih =>
+    obtain ⟨a, v⟩ := hd
+    intro h
+    have h1 := h a v (by simp)
+    have h2 := ih (fun a' v' hm => h a' v' (List.mem_cons_of_mem _ hm))
+    simp only [sumDeps]; omega
+
+/-- with the capped shares `AuctionCollateral` can no longer run out of debt coins: if the liquidator account
+    holds the deposits' collateral and at least the debt to distribute, every send succeeds -/
+theorem auctionDeps_ok (cd : Denom) (total debt : Int) (hcd : cd ≠ DEBT) (ht : 0 < total) (hd : 0 ≤ debt) :
+    ∀ (l : List (Acct × Int)) (remaining : Int) (s : St), (∀ a v, (a, v) ∈ l → 0 < v) →
+      0 ≤ remaining → remaining ≤ s.bal MLIQ DEBT → sumDeps l ≤ s.bal MLIQ cd →
+      ∃ s', auctionDeps s cd total debt remaining l = .ok s' := by
+  intro l
+  induction l with
+  | nil => intro remaining s _ _ _ _; exact ⟨s, rfl⟩
+  | cons hd' tl ih =>
+    obtain ⟨a, v⟩ := hd'
+    intro remaining s hpos hr0 hr1 hc
+    have hv : 0 < v := hpos a v (by simp)
+    have htl : ∀ a' v', (a', v') ∈ tl → 0 < v' := fun a' v' hm => hpos a' v' (List.mem_cons_of_mem _ hm)
+    have hs := sumDeps_nonneg tl htl
+    simp only [sumDeps] at hc
+    simp only [auctionDeps]
+    have h0 : ¬ total = 0 := by omega
+    have h1 : ¬ v = 0 := by omega
+    simp only [h0, h1, ite_false]
+    obtain ⟨s1, e1⟩ := sendB_ok (s := s) (f := MLIQ) (t := MAUC) (d := cd) (a := v) (by omega)
+    rw [e1]
+    dsimp only
+    obtain ⟨-, hb1, -⟩ := sendB_spec e1
+    have hsh := debtCovered_nonneg v total debt (by omega) ht hd
+    have hle := cappedShare_le (debtCovered v total debt) remaining tl.isEmpty
+    have hge := cappedShare_nonneg (debtCovered v total debt) remaining tl.isEmpty hsh hr0
+    have hcd' : ¬ (DEBT = cd) := fun e => hcd e.symm
+    have hb1d : s1.bal MLIQ DEBT = s.bal MLIQ DEBT := by
+      rw [hb1]; simp [MLIQ, MAUC, hcd']
+    obtain ⟨s2, e2⟩ := sendB_ok (s := s1) (f := MLIQ) (t := MAUC) (d := DEBT)
+      (a := cappedShare (debtCovered v total debt) remaining tl.isEmpty) (by omega)
+    rw [e2]
+    dsimp only
+    obtain ⟨-, hb2, -⟩ := sendB_spec e2
+    refine ih _ s2 htl (by omega) ?_ ?_
+    · rw [hb2, hb1d]; simp [MLIQ, MAUC] at hr1 ⊢; omega
+    · rw [hb2, hb1]; simp [MLIQ, MAUC, hcd] at hc ⊢; omega
 
 /-! ### interest accrual on the total principal -/
 
